@@ -177,8 +177,10 @@ def analyse(u, extra_params=None):
                 if not em:
                     continue
                 dims = _split_top(em.group(2))
-                if len(dims) != 1 or ':' not in dims[0]:
+                if len(dims) != 1 or dims[0] == '*':
                     continue
+                if ':' not in dims[0]:
+                    dims[0] = '1:' + dims[0]      # implicit lower bound
                 lo, hi = dims[0].split(':', 1)
                 flo = affine(lo, params)
                 if flo is None or flo[0]:
@@ -317,7 +319,7 @@ def analyse(u, extra_params=None):
                 continue
             f = affine(r['index'], params)
             v = minimise(f, r['nest']) if f is not None else None
-            if v is not None and info['lo'] <= v < lowest:
+            if v is not None and v < lowest:
                 findings.append(dict(array=a, line=r['line'], index=r['index'],
                                      reached=v, lowest_written=lowest,
                                      declared=info['lo']))
